@@ -24,7 +24,6 @@ RULE = ("one execution = one generated stack (depth 1-6 over sync or a thread po
         "completion chain / the worker iteration; distinct & non-trivial = (stack, scripts signature, schedule signature | "
         "placement site) with at least two submissions in flight together")
 REQUIRED = ["line_events", "lock_acquisitions", "fuzz_yields"]
-WATCHDOG = {"quick": 300, "thorough": 1200}
 TYPES = stacks.LAYER_TYPES
 
 
